@@ -132,7 +132,8 @@ Theorem C12_old_panic_input_regression :
 Proof. exact old_panic_input_regression. Qed.
 Print Assumptions C12_old_panic_input_regression.
 
-(* ---- liveness boundaries (documentation: outside the premises of C12_reassembly_complete) ---- *)
+(* ---- liveness boundaries (outside the premises of C12_reassembly_complete; the re-partition and
+   capacity boundaries are registered known findings K-C12-1 / K-C12-4 since audit round 2) ---- *)
 Theorem C12_overshoot_wedges_forever :
   forall st rs, Overshot st -> snd (fst (run st rs)) = [] /\ Overshot (fst (fst (run st rs))).
 Proof. exact overshoot_wedges_forever. Qed.
@@ -144,11 +145,40 @@ Theorem C12_repartition_wedges_refuted :
 Proof. exact repartition_wedges_refuted. Qed.
 Print Assumptions C12_repartition_wedges_refuted.
 
+(* known finding K-C12-1: a retransmission cut with another fragment size.  [0,100) of the 100-byte
+   partition of a 200-byte message has arrived; whatever follows from the 150-byte partition of the
+   same message ([0,150), [150,200): every byte) - any number of times, any packing, any epoch, junk
+   in between - nothing is ever delivered *)
+Theorem C12_refragmented_retransmission_refuted :
+  In rt_first (split_msg 100 rt_msg) /\ cat_data (split_msg 150 rt_msg) = m_body rt_msg /\
+  (forall rs, Forall rt_retransmission rs -> snd (fst (run init (RHs 0 [rt_first] 0 :: rs))) = []).
+Proof. exact refragmented_retransmission_refuted. Qed.
+Print Assumptions C12_refragmented_retransmission_refuted.
+
+(* known finding K-C12-2: fragments of one message are not bound to one epoch - a forged fragment from an
+   unprotected epoch-0 record ends up inside the message surfaced under epoch 2 (witness that the
+   premise "every stored fragment is a genuine slice" of C12_reassembly_safe is needed) *)
+Theorem C12_epoch_splice_refuted :
+  exists p, snd (fst (run init es_history)) = [p] /\ p_epoch p = 2 /\ p_seq p = m_seq es_msg /\
+            p_body p <> m_body es_msg /\ p_body p = [1; 2] ++ f_data es_forged.
+Proof. exact epoch_splice_refuted. Qed.
+Print Assumptions C12_epoch_splice_refuted.
+
+(* known finding K-C12-3: the MTU bounds the fragment body (C12_split) but nothing bounds the MTU by what
+   the receiving side reads per datagram (inboundBufferSize) *)
+Theorem C12_mtu_exceeds_read_buffer_refuted :
+  Forall (fun f => f_flen f <= 9000) (split_msg 9000 jumbo_msg) /\
+  exists f, In f (split_msg 9000 jumbo_msg) /\ g_inbound_buffer < rec_hdr + hs_hdr + f_flen f.
+Proof. exact mtu_exceeds_read_buffer_refuted. Qed.
+Print Assumptions C12_mtu_exceeds_read_buffer_refuted.
+
 Theorem C12_full_rejects_forever :
   forall st rs, Full st -> run st rs = (st, [], false).
 Proof. exact full_rejects_forever. Qed.
 Print Assumptions C12_full_rejects_forever.
 
+(* known finding K-C12-4: the sender's own MTU-1 partition of a 1001-byte message has more fragments than
+   the receiver will ever hold *)
 Theorem C12_capacity_wedges_refuted :
   length (split_msg 1 cap_msg) = 1001%nat /\
   snd (fst (run init cap_history)) = [] /\ Full (fst (fst (run init cap_history))).
